@@ -64,6 +64,11 @@ type Case struct {
 	// much as offered), whose callback is the link service, exactly as the TCP / Unix
 	// transports do.
 	Stream []int `json:"stream,omitempty"`
+	// SeqBack > 0: the sender's next fragment sequence number is 2^64 - SeqBack when the first
+	// message goes out, so that the numbering wraps inside or between the messages (a link
+	// service that has been up long enough gets there; seeded C10-r6-2 rejected fragments whose
+	// sequence number is smaller than their index)
+	SeqBack uint64 `json:"seqback,omitempty"`
 }
 
 // ---------------------------------------------------------------------------- set-up
@@ -292,6 +297,10 @@ func execC10(c Case) (res evid.Result) {
 		sender = face.MakeNDNLPLinkService(tx, opts)
 	}
 	sender.SetFaceID(300)
+	if c.SeqBack > 0 {
+		sender.VerifSetNextSequence(-c.SeqBack)
+		cls["sequence-numbers-near-the-64-bit-wrap"] = true
+	}
 	if c.MTU0 > 0 {
 		sender.SetMTU(c.MTU)
 	}
@@ -700,6 +709,9 @@ func genCase(t *rapid.T) Case {
 		}
 	}
 	c.LateOpts = rapid.IntRange(0, 3).Draw(t, "lateOpts") == 0
+	if rapid.IntRange(0, 5).Draw(t, "nearWrap") == 0 {
+		c.SeqBack = rapid.SampledFrom([]uint64{1, 2, 3, 4, 5, 8, 20, 70, 200}).Draw(t, "seqBack")
+	}
 	c.Frag = rapid.IntRange(0, 5).Draw(t, "frag") != 0
 	c.InFaceInd = rapid.Bool().Draw(t, "inFaceInd")
 	c.LocalCong = rapid.IntRange(0, 11).Draw(t, "localCong") == 0
